@@ -1088,6 +1088,61 @@ impl Oracle {
                 }
             }
         }
+        // (d) material that is invalid for this message but wears the index list of a valid
+        // signature: signatures the same registered parties made for *other* messages of the epoch
+        // (public on the network), re-labelled with the indexes an honest signature won, delivered
+        // first. They do not verify; nothing may change.
+        {
+            let mut foreign: Vec<Item> = vec![];
+            let honest: Vec<&Item> = log.iter().filter(|i| i.valid.as_ref().is_some_and(|v| !v.is_empty())).collect();
+            if !honest.is_empty() {
+                for d in w.deliveries.iter() {
+                    if foreign.len() >= 4 {
+                        break;
+                    }
+                    let MsgKind::Signature { entity: de, producer_recording_epoch, .. } = &d.msg.kind else { continue };
+                    if de == entity || *producer_recording_epoch + 1 != entity.signing_epoch() || d.damaged {
+                        continue;
+                    }
+                    let Ok(v) = serde_json::from_str::<serde_json::Value>(&d.body) else { continue };
+                    let (Some(party), Some(sig_hex)) = (v["party_id"].as_str(), v["signature"].as_str()) else { continue };
+                    let Ok(psig): Result<ProtocolSingleSignature, _> = sig_hex.to_string().try_into() else { continue };
+                    let target = honest[r.index(honest.len())];
+                    let wear = target.sig.signature.get_concatenation_signature_indices();
+                    let mut inner = psig.into_inner();
+                    inner.set_concatenation_signature_indices(&wear);
+                    let relabelled = ProtocolSingleSignature::new(inner);
+                    let hex = relabelled.to_json_hex().unwrap_or_default();
+                    if Self::verify_under_key(&pp, &signers, party, &hex, &[], &message).is_ok() {
+                        continue; // (cannot happen for another message; would be valid material)
+                    }
+                    foreign.push(Item {
+                        sig: SingleSignature::new(party.to_string(), relabelled, wear.clone()),
+                        valid: None,
+                        what: format!("{}~other-message-wearing-indexes-of-{}", short(party), target.what),
+                    });
+                }
+            }
+            if !foreign.is_empty() {
+                for item in log.iter() {
+                    foreign.push(Item { sig: item.sig.clone(), valid: item.valid.clone(), what: item.what.clone() });
+                }
+                let items: Vec<&Item> = foreign.iter().collect();
+                let res = aggregate(&items);
+                self.probe("clerk_probe_foreign_material_wearing_valid_indexes");
+                match res {
+                    Ok(true) => {}
+                    Ok(false) => self.report(step, "aggregate-does-not-verify", format!("aggregation for {} with re-labelled signatures of other messages delivered first succeeded but its result does not verify", entity.label())),
+                    Err(e) => {
+                        if full_union.len() as u64 >= pp.k {
+                            self.report(step, "quorum-but-aggregation-fails", format!(
+                                "the delivered signatures for {} cover {} distinct lottery indexes (k = {}); with signatures of other messages re-labelled with the indexes of valid ones delivered first (they do not verify), aggregation fails: {e}",
+                                entity.label(), full_union.len(), pp.k));
+                        }
+                    }
+                }
+            }
+        }
         // (b)
         let genuine_ok = aggregate(&full);
         let mut with_bogus: Vec<Item> = log.iter().map(|i| Item { sig: i.sig.clone(), valid: i.valid.clone(), what: i.what.clone() }).collect();
